@@ -19,3 +19,79 @@ Theorem lane_read_in_range :
   /\ forall b b' r, sub b (byte_lo r) (byte_hi r) = sub b' (byte_lo r) (byte_hi r) -> lane_read b r = lane_read b' r.
 Proof. split; [exact lane_ranges_fit_lane|exact lane_read_local]. Qed.
 Print Assumptions lane_read_in_range.
+
+(** No input makes a view constructor panic, i.e. (in the model, where every read is
+    bounds-checked against the sub-slice at hand) no constructor reads a byte beyond the
+    length it has already checked: [has_required_size] and [try_from_slice] of all eleven
+    view kinds, for every byte string. *)
+Theorem constructors_never_panic :
+  forall (k : vkind) (b : bytes),
+    is_panic (required_size k b) = false /\ is_panic (try_from_slice k b) = false.
+Proof. intros k b. split; [apply required_size_np|apply try_from_slice_np]. Qed.
+Print Assumptions constructors_never_panic.
+
+(** Every accessor that reads one field at a fixed offset (33 accessors of header, standard
+    path meta header, info field, hop field, UDP datagram and SCMP payload views) stays
+    inside the view, for every accepted byte string.
+    PARTIAL with respect to "every safe accessor": the accessors whose offset is computed
+    from fields (host addresses, path / hop field / info field sub-views, payload, udp(),
+    scmp(), offending packet, dst_port) are modelled in [Wire.Views.run_acc] and covered by
+    the correspondence check (observed slice ranges inside the view, no panic), not by a
+    theorem. *)
+Theorem accessor_in_bounds_partial :
+  forall k id r bits arg (b : bytes) (n : N),
+    In (k, id, r, bits) fixed_accessors -> required_size k b = Ok n ->
+    is_panic (run_acc k id arg (sub b 0 n)) = false /\ Spec_C02.lane_within n (fst r) (snd r) = true.
+Proof.
+  intros k id r bits arg b n Hin Hs. split; [eapply fixed_accessor_in_bounds; eauto|].
+  pose proof fixed_accessors_fit as F. rewrite forallb_forall in F. specialize (F _ Hin). cbn beta iota in F.
+  apply Bool.andb_true_iff in F. destruct F as [F1 F2].
+  pose proof (required_size_min k b n Hs) as M.
+  unfold Spec_C02.lane_within. apply Bool.andb_true_iff. split.
+  - exact F1.
+  - apply N.leb_le. apply N.leb_le in F2. unfold byte_hi, r_end in F2. lia.
+Qed.
+Print Assumptions accessor_in_bounds_partial.
+
+(** Every safe mutator, and by induction every sequence of safe mutators, leaves the extent
+    of the view unchanged and writes only through bounds-checked ranges: if the model does
+    not report a Panic the result has exactly the length of the view.
+    PARTIAL with respect to "no safe mutator changes required_size": that the mutated bytes
+    are still accepted with the same size needs the read-after-write lemmas of
+    [Wire.BitFieldProofs] for each (setter, size field) pair; the finite disjointness table
+    is [size_determining_setters_are_unsafe] below, the end-to-end statement is checked by
+    the correspondence run (mutator sequences followed by every accessor). *)
+Theorem safe_mutators_preserve_extent_partial :
+  forall (k : vkind) (ms : list (N * N * N)) (v v' : bytes),
+    run_muts k ms v = Ok v' -> length v' = length v.
+Proof. exact run_muts_length. Qed.
+Print Assumptions safe_mutators_preserve_extent_partial.
+
+(** The setters of size-determining fields are exactly the [unsafe fn]s (generated from the
+    view sources): no range written by a SAFE generated setter overlaps a field that
+    [has_required_size] of the same view reads, the typed packet views' [as_raw_mut] are
+    unsafe and there is no safe conversion [&mut ScionUdpPacketView -> &mut ScionRawPacketView]. *)
+Definition header_size_fields : list rng :=
+  [CommonHeader_HEADER_LEN_RNG; CommonHeader_PAYLOAD_LEN_RNG; CommonHeader_PATH_TYPE_RNG;
+   CommonHeader_DST_ADDR_INFO_RNG; CommonHeader_SRC_ADDR_INFO_RNG].
+Definition stdpath_size_fields : list rng := [StdPathMeta_SEG0_LEN_RNG; StdPathMeta_SEG1_LEN_RNG; StdPathMeta_SEG2_LEN_RNG].
+Definition disjoint_from (fields safe : list rng) : bool := forallb (fun s => forallb (rng_disjoint s) fields) safe.
+Theorem size_determining_setters_are_unsafe :
+  udp_as_raw_mut_is_unsafe = true /\ scmp_as_raw_mut_is_unsafe = true /\ udp_mut_into_raw_mut_impl = false
+  /\ disjoint_from header_size_fields ScionHeaderView_safe_writes = true
+  /\ disjoint_from stdpath_size_fields StandardPathView_safe_writes = true
+  /\ disjoint_from [ScmpMessage_TYPE_RNG]
+       (ScmpPayloadView_safe_writes ++ ScmpUnknownMessageView_safe_writes ++ ScmpDestinationUnreachableMessageView_safe_writes
+        ++ ScmpPacketTooBigMessageView_safe_writes ++ ScmpParameterProblemMessageView_safe_writes
+        ++ ScmpExternalInterfaceDownMessageView_safe_writes ++ ScmpInternalConnectivityDownMessageView_safe_writes
+        ++ ScmpEchoRequestMessageView_safe_writes ++ ScmpEchoReplyMessageView_safe_writes
+        ++ ScmpTracerouteRequestMessageView_safe_writes ++ ScmpTracerouteReplyMessageView_safe_writes) = true.
+Proof. vm_compute. repeat split; reflexivity. Qed.
+Print Assumptions size_determining_setters_are_unsafe.
+
+(** non-vacuity: a 48-byte SCION/UDP packet is accepted by the three packet constructors *)
+Example accepted_packet :
+  let b := [10;188;222;241;17;9;0;12;0;0;0;0;16;17;18;19;20;21;22;23;24;25;26;27;28;29;30;31;208;209;210;211;80;81;82;83;
+            48;57;1;187;0;12;18;52;7;7;7;7] in
+  required_size KRaw b = Ok 48 /\ required_size KUdpPkt b = Ok 48 /\ required_size KHeader b = Ok 36.
+Proof. vm_compute. repeat split; reflexivity. Qed.
